@@ -979,3 +979,39 @@ func SimplifyUnder(t *Term, known map[int]bool) *Term {
 	}
 	return t
 }
+
+// QuotZero rewrites an FP term t into a term t' with t ≈ t', where a ≈ b means "both NaN
+// or IEEE-equal" (signed zeros identified; this is sym.EqF). It removes the zero-sign
+// corrections ite(isNegZero(x), +0, x) that FAdd introduces for x + (+0), wherever the path
+// from the root to that subterm goes only through operators that are congruent for ≈:
+// add, sub, mul, neg, abs, sqrt, the numerator of div and the branches of ite (NOT the
+// divisor of div, NOT ite conditions, NOT UFs). Because ≈ is an equivalence relation,
+// EqF(a,b) ⟺ EqF(QuotZero(a), QuotZero(b)). The congruence lemmas are discharged by the
+// solver in `gosym selfcheck` (on a reduced float format, where they are instant).
+func QuotZero(t *Term) *Term {
+	if RealMode || t.Sort != SFP {
+		return t
+	}
+	switch t.Op {
+	case "ite":
+		if t.Args[1] == FPConst(0) && t.Args[0] == isNegZero(t.Args[2]) {
+			return QuotZero(t.Args[2])
+		}
+		return Ite(t.Args[0], QuotZero(t.Args[1]), QuotZero(t.Args[2]))
+	case "fp.add":
+		return FAdd(QuotZero(t.Args[0]), QuotZero(t.Args[1]))
+	case "fp.sub":
+		return FSub(QuotZero(t.Args[0]), QuotZero(t.Args[1]))
+	case "fp.mul":
+		return FMul(QuotZero(t.Args[0]), QuotZero(t.Args[1]))
+	case "fp.neg":
+		return FNeg(QuotZero(t.Args[0]))
+	case "fp.abs":
+		return FAbs(QuotZero(t.Args[0]))
+	case "fp.sqrt":
+		return FSqrt(QuotZero(t.Args[0]))
+	case "fp.div":
+		return FDiv(QuotZero(t.Args[0]), t.Args[1])
+	}
+	return t
+}
